@@ -10,7 +10,7 @@
    acknowledgement order, and every quirk setting [q] under the guard "the
    observables of this run are those of the repaired model". *)
 From Coq Require Import List ZArith Bool Permutation.
-From Arrai Require Import Sys.Engine Proofs.EngineP.
+From Arrai Require Import Sys.Engine Sys.FrontEnd Proofs.EngineP Proofs.FrontEndP.
 Import ListNotations.
 Open Scope Z_scope.
 
@@ -157,3 +157,62 @@ Example C17_guard_nonvacuous :
   /\ obs_trace _ 2 (s_trace _ _ (crun quirks17_all wit_guarded)) = [MUpdate (Some 6); MUpdate (Some 54); MUpdate (Some 55); MClose true].
 Proof. exact guard_nonvacuous. Qed.
 Print Assumptions C17_guard_nonvacuous.
+
+(* ---------- the front-ends (cmd/arrai serve_grpc.go, serve_ws.go) as a session layer over the engine ---------- *)
+(* Sys/FrontEnd.v [fe_map]: a front-end history (updates, subscriptions per connection - a second subscription on a
+   connection is cancel + observe -, clients leaving = no engine call, requests that do not compile = no engine call)
+   maps to an engine history that is well formed: no Stop, no Hangup, every watcher id subscribed at most once, ids >= 1 *)
+Theorem C17_frontend_history_well_formed :
+  forall V E (h : list (fe_op V E)),
+    existsb (is_stop V E) (fe_map V E h) = false
+    /\ existsb (is_hangup V E) (fe_map V E h) = false
+    /\ (forall i, observed_once V E i (fe_map V E h) = true)
+    /\ (forall i, existsb (observes V E i) (fe_map V E h) = true -> 1 <= i).
+Proof. exact fe_map_well_formed. Qed.
+Print Assumptions C17_frontend_history_well_formed.
+
+(* never wedges, for ALL front-end histories: the loop keeps running and every engine call the front-ends make is answered *)
+Theorem C17_frontend_never_wedges :
+  forall V E (eval : E -> V -> eres V) ord, (forall n l, Permutation (ord n l) l) ->
+  forall db0 (h : list (fe_op V E)),
+    s_status V E (run V E eval ord quirks17_off db0 (fe_map V E h)) = Running
+    /\ Forall2 (answered V E) (fe_map V E h) (s_acks V E (run V E eval ord quirks17_off db0 (fe_map V E h))).
+Proof. exact frontend_never_wedges. Qed.
+Print Assumptions C17_frontend_never_wedges.
+
+(* order: every watcher of every connection receives the sequential specification's trace; closed at most once, then silent *)
+Theorem C17_frontend_order :
+  forall V E (eval : E -> V -> eres V) ord, (forall n l, Permutation (ord n l) l) ->
+  forall db0 (h : list (fe_op V E)),
+    (forall i, obs_trace V i (s_trace V E (run V E eval ord quirks17_off db0 (fe_map V E h))) = spec_trace V E eval i db0 (fe_map V E h))
+    /\ s_db V E (run V E eval ord quirks17_off db0 (fe_map V E h)) = spec_db V E eval db0 (fe_map V E h)
+    /\ s_acks V E (run V E eval ord quirks17_off db0 (fe_map V E h)) = spec_acks V E eval db0 (fe_map V E h)
+    /\ (forall i, closed_once V (obs_trace V i (s_trace V E (run V E eval ord quirks17_off db0 (fe_map V E h)))) = true).
+Proof. exact frontend_refines_spec. Qed.
+Print Assumptions C17_frontend_order.
+
+(* isolation: a client that leaves causes no engine call whatever its position in the history, and a watcher's trace
+   depends only on the updates and on its own subscription / cancel *)
+Theorem C17_frontend_isolation :
+  forall V E (eval : E -> V -> eres V) ord, (forall n l, Permutation (ord n l) l) ->
+  forall db0 (h1 h2 h h' : list (fe_op V E)) c i,
+    fe_map V E (h1 ++ FeHangup c :: h2) = fe_map V E (h1 ++ h2)
+    /\ (erase_others V E i (fe_map V E h) = erase_others V E i (fe_map V E h') ->
+        obs_trace V i (s_trace V E (run V E eval ord quirks17_off db0 (fe_map V E h)))
+        = obs_trace V i (s_trace V E (run V E eval ord quirks17_off db0 (fe_map V E h')))).
+Proof. exact frontend_isolation. Qed.
+Print Assumptions C17_frontend_isolation.
+
+(* a concrete front-end history: update 5; ws#1 observes $; gRPC call #2 observes $+1; update $*10+3; a request that does not
+   compile; ws#1 re-subscribes $+2 (cancel + observe); ws#1 leaves; update 7 *)
+Example C17_frontend_example :
+  let h := [FeUpdate (Some (CConst 5)); FeSubscribe 1 (Some CRoot) (cb_of None); FeSubscribe 2 (Some (CAdd 1)) (cb_of None);
+            FeUpdate (Some (CMulAdd 3)); FeSubscribe 1 None (cb_of None); FeSubscribe 1 (Some (CAdd 2)) (cb_of None);
+            FeHangup 1; FeUpdate (Some (CConst 7))] in
+  length (fe_map cval cexpr h) = 7%nat
+  /\ fe_counts cval cexpr h = [1; 1; 1; 1; 0; 2; 0; 1]%nat
+  /\ fe_ids cval cexpr 1 h = [1; 3]
+  /\ obs_trace _ 1 (s_trace _ _ (crun quirks17_off (fe_map cval cexpr h))) = [MUpdate (Some 5); MUpdate (Some 53); MClose true]
+  /\ obs_trace _ 2 (s_trace _ _ (crun quirks17_off (fe_map cval cexpr h))) = [MUpdate (Some 6); MUpdate (Some 54); MUpdate (Some 8)]
+  /\ obs_trace _ 3 (s_trace _ _ (crun quirks17_off (fe_map cval cexpr h))) = [MUpdate (Some 55); MUpdate (Some 9)].
+Proof. vm_compute. repeat split. Qed.
